@@ -42,3 +42,6 @@ def run(rep: Report, repo: Repo, tier: str) -> None:
     # "no toctree entry lacks a generated target": a listed sub-directory is one the walk enters
     with rep.isolated():
         fsrules.rule_symlinked_subdirs(rep, repo, "C14-R11")
+    # "every index.rst contains one toctree": no page can take the index's place
+    with rep.isolated():
+        fsrules.rule_index_name_collision(rep, repo, "C14-R12")
